@@ -1,7 +1,7 @@
 (* C03 / C09: the model of doubles_equal (lib/Dbl.v) is EQUAL to the definition tools/cxx2coq.py regenerates from /repo's
    Utest.cpp on every run (gen/Gen_LeafDbl.v). *)
 From Coq Require Import ZArith Bool.
-From CppUVerif Require Import lib.CSem lib.Dbl gen.Gen_LeafDbl.
+From CppUVerif Require Import lib.CSem lib.Dbl gen.Gen_LeafC03.
 
 Lemma C03_doubles_equal_is_the_source : forall d1 d2 t, leaf_doubles_equal d1 d2 t = b2z (doubles_equal d1 d2 t).
 Proof.
